@@ -332,12 +332,40 @@ theorem openSrc_spec {P : W → Prop} (hP : Insens P) (k : CompKind) (p : Name) 
   refine Triple.seq (tick_spec hP _) (Triple.bindGet (fun a => Triple.pre ?_ (fun w h => h.2)))
   exact Triple.ite (fun _ => Triple.throw _) (fun _ => Triple.unit)
 
+/-! ### monad laws of `M`, and: the generated primitive sequences ARE the hand-written compress function -/
+theorem M.bind_assoc {α β γ} (m : M α) (f : α → M β) (g : β → M γ) :
+    (m >>= f) >>= g = m >>= fun a => f a >>= g := by
+  funext w
+  simp only [bind_apply]
+  cases m w with
+  | mk r w' => cases r <;> rfl
+
+theorem M.bind_pure_unit (m : M Unit) : (m >>= fun _ => (pure () : M Unit)) = m := by
+  funext w
+  simp only [bind_apply]
+  cases m w with
+  | mk r w' =>
+    cases r with
+    | ok a => cases a; rfl
+    | error e => rfl
+
+theorem M.pure_bind {β} (f : Unit → M β) : ((pure () : M Unit) >>= f) = f () := rfl
+
+/-- **generated = hand model**: interpreting `Gen.compressPrims` (read from the `with` nests of `copy_compress`,
+`add_compress`, `write_compress`) gives exactly the hand-written primitive sequence – an edit of the nesting, of the
+order, or a new primitive re-opens this proof and with it every compression theorem -/
+theorem compressFn_eq (k : CompKind) (p out : Name) : compressFn k p out = compressFnHand k p out := by
+  cases k <;>
+    simp only [compressFn, compressFnHand, Gen.compressPrims, List.map, seqM, cPrim, openSrc, M.bind_assoc,
+      M.pure_bind, M.bind_pure_unit, beq_self_eq_true, ↓reduceIte] <;> rfl
+
 /-- the compress function: needs a fresh target; afterwards the archive holds what the source holds;
 the source is never touched -/
 theorem compressFn_spec (k : CompKind) (p out : Name) (hne : out ≠ p) :
     Triple (fun w => Inv w ∧ w.fs.get out = none) (compressFn k p out)
       (fun _ w => Inv w ∧ ∀ e, w.fs.get p = some e → ∃ i, w.fs.get out = some (.arch i e.content)) Inv := by
-  unfold compressFn
+  rw [compressFn_eq]
+  unfold compressFnHand
   have hI : Insens (fun w => Inv w ∧ w.fs.get out = none) := fun w t f h => ⟨Inv.insens _ _ _ h.1, h.2⟩
   have hI2 : Insens (fun w => Inv w ∧ ∃ i, w.fs.get out = some (.arch i [])) := fun w t f h => ⟨Inv.insens _ _ _ h.1, h.2⟩
   refine Triple.seq (Triple.conseq (openSrc_spec hI k p) (fun _ h => h) (fun _ _ h => h) (fun _ h => h.1)) ?_
@@ -503,7 +531,12 @@ theorem reopen_spec (cfg : Cfg) : Triple Inv (reopenIfNeeded cfg) (fun _ => Inv)
   split
   · exact Triple.unit
   · refine Triple.seq (tick_spec Inv.insens _) (Triple.ite (fun _ => ?_) (fun _ => Triple.unit))
-    exact Triple.seq closeFile_spec (Triple.seq mkdirs_spec (createFile_spec _ _))
+    refine Triple.seqM _ (fun a ha => ?_)
+    obtain ⟨s, _, rfl⟩ := List.mem_map.1 ha
+    cases s with
+    | close => exact closeFile_spec
+    | mkdirs => exact mkdirs_spec
+    | create => exact createFile_spec _ _
 
 theorem writeMsg_spec : Triple Inv writeMsg (fun _ => Inv) Inv := by
   unfold writeMsg
@@ -558,7 +591,11 @@ theorem writeBody_spec (cfg : Cfg) (o : Orc) : Triple Inv (writeBody cfg o) (fun
 
 theorem stopBody_spec (cfg : Cfg) (o : Orc) : Triple Inv (stopBody cfg o) (fun _ => Inv) Inv := by
   unfold stopBody
-  exact Triple.seq (Triple.whenM (fun _ => reopen_spec _)) (terminate_spec _ _ _)
+  refine Triple.seqM _ (fun a ha => ?_)
+  obtain ⟨s, _, rfl⟩ := List.mem_map.1 ha
+  cases s with
+  | reopen => exact Triple.whenM (fun _ => reopen_spec _)
+  | terminate => exact terminate_spec _ _ _
 
 /-- a triple with the same predicate everywhere is preservation by the state component -/
 theorem Triple.snd {α} {P : W → Prop} {m : M α} (h : Triple P m (fun _ => P) P) (w : W) (hw : P w) :
